@@ -118,11 +118,20 @@ type EnumFlow struct {
 // path may equal, from ==/!= comparisons with constants on the branches taken.
 // match decides whether an SSA value denotes the tracked value.
 func TrackEnum(fn *ssa.Function, match func(ssa.Value) bool) *EnumFlow {
+	return TrackEnumFrom(fn, match, ValueSet{NotIn: map[string]bool{}})
+}
+
+// JoinSets is the least upper bound of two value sets.
+func JoinSets(a, b ValueSet) ValueSet { return join(a, b) }
+
+// TrackEnumFrom is TrackEnum with the value set that holds on entry (what the
+// callers establish for a parameter).
+func TrackEnumFrom(fn *ssa.Function, match func(ssa.Value) bool, entry ValueSet) *EnumFlow {
 	ef := &EnumFlow{in: map[*ssa.BasicBlock]ValueSet{}}
 	if len(fn.Blocks) == 0 {
 		return ef
 	}
-	ef.in[fn.Blocks[0]] = ValueSet{NotIn: map[string]bool{}}
+	ef.in[fn.Blocks[0]] = entry.clone()
 	work := []*ssa.BasicBlock{fn.Blocks[0]}
 	for len(work) > 0 {
 		b := work[0]
